@@ -391,29 +391,33 @@ def _work(args):
                     cfg['file'] = payload
                     with open(path, 'w') as out:
                         out.write(render(payload, rng, final_newline=rng.random() < 0.7))
-                    ev = common.guarded(file_events, 180, path, workdir, False)
+                    with common.caller_state(tid):
+                        ev = common.guarded(file_events, 180, path, workdir, False)
                 elif kind == 'generic':
                     rng = random.Random(payload)
                     cfg['file'] = random_generic_file(rng)
                     with open(path, 'w') as out:
                         out.write(render(cfg['file'], rng, final_newline=rng.random() < 0.7))
-                    ev = common.guarded(file_events, 180, path, workdir, False)
+                    with common.caller_state(tid):
+                        ev = common.guarded(file_events, 180, path, workdir, False)
                 elif kind == 'topo':
                     rng = random.Random(payload)
                     f, n, bonds = random_topology(rng, rng.randint(1, 40), rng.choice(['tree', 'cyclic', 'forest', 'pieces']))
                     cfg['file'] = f
                     with open(path, 'w') as out:
                         out.write(render(f, rng, final_newline=rng.random() < 0.8))
-                    ev = common.guarded(file_events, 180, path, workdir, True)
+                    with common.caller_state(tid):
+                        ev = common.guarded(file_events, 180, path, workdir, True)
                 elif kind == 'graph':
                     rng = random.Random(payload)
                     gk = rng.choice(['chain', 'tree', 'cyclic', 'forest', 'pieces', 'pieces'])
-                    n = rng.choice([rng.randint(1, 300), rng.randint(900, 3000)] + ([rng.randint(3, 12)] * 2 if gk == 'pieces' else []))
+                    n = rng.choice([rng.randint(1, 300), rng.randint(900, 3000), rng.randint(180, 260)] + ([rng.randint(3, 12)] * 2 if gk == 'pieces' else []))
                     f, n, bonds = random_topology(rng, n, gk)
                     cfg = {'kind': 'graph', 'file': [], 'n': n, 'bonds': bonds}
                     with open(path, 'w') as out:
                         out.write(render(f, rng))
-                    ev = topo_events(path, 'graph')
+                    with common.caller_state(tid):
+                        ev = topo_events(path, 'graph')
                 else:                      # shipped topology: read / write / read on the real text
                     cfg = {'kind': 'shipped', 'file': [], 'n': 0, 'bonds': [], 'path': os.path.basename(payload)}
                     ev = shipped_events(payload, workdir)
